@@ -1,0 +1,13 @@
+//go:build verif
+
+package common
+
+import "sync/atomic"
+
+// Accessors used only by the external verification harness (build tag "verif").
+
+// VerifGetXid reads the transaction-id counter.
+func VerifGetXid() uint32 { return atomic.LoadUint32(&messageXid) }
+
+// VerifSetXid sets the transaction-id counter (to reach the wrap-around edge).
+func VerifSetXid(v uint32) { atomic.StoreUint32(&messageXid, v) }
